@@ -38,11 +38,18 @@ def noninterference_counts(run):
         run.prove(s)
 
 
-def power(pos, L, nmesh, paste, comp, inter, nthread, pos2=None, poles=(0, 2), dtype=np.float32, nbins=6, mubins=3):
+def power(pos, L, nmesh, paste, comp, inter, nthread, pos2=None, poles=(0, 2), dtype=np.float32, nbins=6, mubins=3, w=None, w2=None, alias=False):
+    """alias=True: the second field is given as the very same array objects as the first (pos2 is pos, w2 is w)"""
     from abacusnbody.analysis.power_spectrum import calc_power
     import numba
     try:
-        r = calc_power(pos.copy(), L, nbins, mubins, None, False, paste, nmesh, comp, inter, pos2=None if pos2 is None else pos2.copy(),
+        p1 = pos.copy()
+        w1 = None if w is None else w.copy()
+        if alias:
+            p2, ww2 = p1, w1
+        else:
+            p2, ww2 = (None if pos2 is None else pos2.copy()), (None if w2 is None else w2.copy())
+        r = calc_power(p1, L, nbins, mubins, None, False, paste, nmesh, comp, inter, w=w1, pos2=p2, w2=ww2,
                        poles=list(poles), nthread=nthread, dtype=dtype)
     finally:
         numba.set_num_threads(numba.config.NUMBA_NUM_THREADS)
@@ -93,6 +100,27 @@ def judge(seed, nmesh, paste, comp, inter, N, dtype):
     why = same(power(pos, L, nmesh, paste, comp, inter, 4, pos2=pos, dtype=dtype), 'passing the same particles as the second field')
     if why:
         return why
+    why = same(power(pos, L, nmesh, paste, comp, inter, 4, alias=True, dtype=dtype), 'passing the same array object as the second field')
+    if why:
+        return why
+    # weighted particles: the same symmetries with (position, weight) pairs
+    w = (rng.random(N) + 0.5).astype(dtype)
+    try:
+        base_w = power(pos, L, nmesh, paste, comp, inter, 4, dtype=dtype, w=w)
+    except Exception as ex:      # noqa
+        return f'{tag}: calc_power with weights raised {ex!r}'
+    scale_w = float(np.nanmax(np.abs(np.asarray(base_w['power'], dtype=np.float64)))) or 1.0
+
+    def same_w(r, what):
+        for c in cols:
+            if not close(r[c], base_w[c], rtol, scale_w if c != 'k_avg' else float(np.nanmax(np.asarray(base_w['k_avg'], dtype=np.float64)))):
+                return f'{tag}: weighted column {c} changes under {what}'
+        return None
+    why = same_w(power(pos[perm], L, nmesh, paste, comp, inter, 4, dtype=dtype, w=w[perm]), 'a permutation of the (particle, weight) pairs') or \
+        same_w(power(pos, L, nmesh, paste, comp, inter, 2, dtype=dtype, w=w), 'nthread=2') or \
+        same_w(power(pos, L, nmesh, paste, comp, inter, 4, dtype=dtype, w=w, alias=True), 'passing the same weighted arrays as the second field')
+    if why:
+        return why
     other = (rng.random((N // 2 + 3, 3)) * L).astype(dtype)
     r2 = power(other, L, nmesh, paste, comp, inter, 4, dtype=dtype)
     for c in ('N_mode', 'k_min', 'k_max', 'k_mid'):
@@ -129,7 +157,7 @@ def check(run):
         if why:
             run.bounded_violation('calc_power lacks a symmetry of the estimator', dict(seed=t[0], nmesh=t[1], paste=t[2], compensated=t[3], interlaced=t[4], N=t[5]), why)
             break
-    run.add_bounded('real calc_power under permutation / whole-cell translations / thread counts / pos2 = pos / different particle sets', len(tasks) * 11, len(tasks),
+    run.add_bounded('real calc_power under permutation / whole-cell translations / thread counts / pos2 = pos (copy and same object) / weights / different particle sets', len(tasks) * 16, len(tasks),
                     'meshes 12, 16, 18 (6..24 thorough) x TSC/CIC x compensated x interlaced x float32 (+float64 every third) x 300-450 random particles; tolerance 2e-3 of the peak power (float32), 1e-8 (float64)',
                     [dict(nmesh=16, paste='TSC', compensated=True, interlaced=True)])
     run.extra['explanation'] = ('symmetries follow from contracts proved under C06/C07/C08 plus two algebraic lemmas proved here; the FFT shift theorem is assumed; '
